@@ -266,7 +266,29 @@ class AtomicAnalysis:
                     cur = st[0] if nm_ == "rval" else (st[1] if nm_ in ("__EGrval__", "__RVAL__") else None)
                     if cur is not None and ((o == "==" and cur == NZ) or (o == "!=" and cur == Z)):
                         return []
+        if self._null_test(cond):
+            # a defensive NULL test of a pointer argument is not one of the argument validations C07 speaks about
+            # (index, name, selector, basis shape): failing it is no evidence that "the arguments were rejected"
+            return [(st[0], st[1], st[2], frozenset(), st[4])]
         return [(st[0], st[1], st[2], input_mentions(cond, self.nm), st[4])]
+
+    def _null_test(self, cond):
+        c = strip(cond)
+        while isinstance(c, list) and c and c[0] == "u" and c[1] == "!":
+            c = strip(c[2])
+        if isinstance(c, list) and c and c[0] == "b" and c[1] in ("==", "!=") and const_of(c[3]) == 0:
+            c = strip(c[2])
+        if is_var(c):
+            ty = self.f.var_type(c) or ""
+            return "*" in ty
+        if isinstance(c, list) and c and c[0] == "m":
+            rec, fld = c[2].split("::")
+            r = self.prog.records.get(rec)
+            if r:
+                for fn_, ft, ct in r["fields"]:
+                    if fn_ == fld:
+                        return "*" in ct
+        return False
 
     def refine_switch(self, cond, value, allv, st):
         return [(st[0], st[1], st[2], input_mentions(cond, self.nm), st[4])]
